@@ -33,6 +33,7 @@ WORLD_TIMEOUT = 400
 WORLD_PIPE = None
 CONTEXT_OPS = ()
 SALTS = 3
+SCREEN_ATTEMPTS = 6
 
 RULE = (
     "one world = one process history of ~400..1500 scheduled client operations over 2-4 analysis clients (ISAs biased so that "
@@ -70,6 +71,7 @@ PROBES = {
         "analysis-continued-on-derived-map",
         "map-through-cfg-node",
         "composed-with-conditioned-map",
+        "executed-in-perturbed-context",
         "node-cut-map-recomputed",
     ]
 }
@@ -651,6 +653,25 @@ class World(object):
                             i(mapper())
                         except Exception:
                             pass
+            elif k == "exec_ctx":
+                # the block executed on a map in which every architectural register already has
+                # a (perturbed) symbolic value: an analysis in the middle of a path, where
+                # evaluating anything in the map never gives it back unchanged
+                blk = self.blocks.get(op["block"])
+                if blk is not None and isinstance(blk["instrs"], list):
+                    m = mapper()
+                    try:
+                        for (node, owner) in sorted(self.B.tracked.values(), key=lambda x: x[1]):
+                            if owner.startswith("global:") and node._is_reg and not node._is_ext and 0 < node.size <= 128 and owner.count("[") == 0 and owner.count("{") == 0:
+                                m[node] = ~node
+                    except Exception:
+                        pass
+                    st.hit("probe:executed-in-perturbed-context")
+                    for i in blk["instrs"]:
+                        try:
+                            i(m)
+                        except Exception:
+                            pass
             elif k == "abort":
                 blk = self.blocks.get(op["block"])
                 if blk is not None and isinstance(blk["instrs"], list):
@@ -828,7 +849,7 @@ class Gen(object):
             return self.pending.pop(0)
         c = r.choice(self.clients)
         ci = self.clients.index(c)
-        kinds = [("new", 3), ("eval_old", 5), ("rebuild", 3), ("remap", 1.5), ("elsewhere", 1), ("compose", 1.6), ("extend", 2.5), ("str", 1), ("pickle", 0.7), ("exec1", 1.5), ("abort", 0.8), ("mode", 0.3)]
+        kinds = [("new", 3), ("eval_old", 5), ("rebuild", 3), ("remap", 1.5), ("elsewhere", 1), ("compose", 1.6), ("extend", 2.5), ("str", 1), ("pickle", 0.7), ("exec1", 1.5), ("exec_ctx", 1.5), ("abort", 0.8), ("mode", 0.3)]
         k = weighted(r, kinds)
         if k == "new" or not c["blocks"]:
             if len(c["blocks"]) >= 12:
@@ -905,8 +926,8 @@ class Gen(object):
             c["maps"].append(mid)
             self.pending = [{"op": "eval", "map": mid, "salts": list(range(SALTS)), "client": ci}]
             return {"op": "pickle", "id": mid, "map": r.choice(c["maps"][:-1]), "client": ci}
-        if k == "exec1" and c["blocks"]:
-            return {"op": "exec1", "block": r.choice(c["blocks"]), "client": ci}
+        if k in ("exec1", "exec_ctx") and c["blocks"]:
+            return {"op": k, "block": r.choice(c["blocks"]), "client": ci}
         if k == "abort" and c["blocks"]:
             return {"op": "abort", "block": r.choice(c["blocks"]), "after": r.choice([0, 1, 1, 2]), "client": ci}
         if k == "mode":
@@ -1030,17 +1051,19 @@ def run_pairs(spec):
         P = []
         mine = S[spec["part"] :: spec["parts"]]
         for p in mine:
-            for attempt in range(2):
+            for attempt in range(SCREEN_ATTEMPTS):
+                # (several operand templates: what an instruction writes may depend on a small
+                # field of its encoding -- a condition code, an addressing form)
                 T = rng.getrandbits(128)
                 lead = []
-                if attempt == 1:
+                if attempt % 2 == 1:
                     q = rng.choice(S)
                     lead = [I.encode(q, rng, endian=en if q.size != 0 else 1, tail=6 if q.size == 0 else 0, template=T, flip=0.0).hex()]
                 bp = I.encode(p, rng, endian=en if p.size != 0 else 1, tail=6 if p.size == 0 else 0, template=T, flip=0.0).hex()
                 nid[0] += 1
                 k = nid[0]
                 wrote = False
-                for op in ({"op": "reset"}, {"op": "block", "id": "d%d" % k, "isa": name, "ins": lead + [bp], "addr": 0x1000, "client": 1}, {"op": "map", "id": "md%d" % k, "block": "d%d" % k, "client": 1}, {"op": "exec1", "block": "d%d" % k, "client": 1}):
+                for op in ({"op": "reset"}, {"op": "block", "id": "d%d" % k, "isa": name, "ins": lead + [bp], "addr": 0x1000, "client": 1}, {"op": "map", "id": "md%d" % k, "block": "d%d" % k, "client": 1}, {"op": "exec1", "block": "d%d" % k, "client": 1}, {"op": "exec_ctx", "block": "d%d" % k, "client": 1}):
                     W.step(op)
                     if [x for x in W.last_writes if x not in W.known]:
                         wrote = True
@@ -1056,7 +1079,14 @@ def run_pairs(spec):
         plan = []
         if P:
             per = max(1, min(n, budget * 2 // (3 * len(P))))
+            hookname = lambda x: getattr(getattr(x, "hook", None), "__name__", None)
             for (p, lead, T) in P:
+                # the same kind of instruction in another context first (same spec, then specs
+                # decoded by the same setup function: they consult the same tables), then the rest
+                fam = [p] + [v for v in S if v is not p and hookname(v) is not None and hookname(v) == hookname(p)][:6]
+                for v in fam:
+                    plan.append((p, v, lead, T))
+                    plan.append((p, v, None, T))
                 vs = S if per >= n else rng.sample(S, per)
                 for v in vs:
                     plan.append((p, v, lead, T))
@@ -1089,6 +1119,7 @@ def run_pairs(spec):
                 {"op": "block", "id": "p%d" % k, "isa": name, "ins": lead + [bp], "addr": 0x1000, "client": 1},
                 {"op": "map", "id": "mp%d" % k, "block": "p%d" % k, "client": 1},
                 {"op": "exec1", "block": "p%d" % k, "client": 1},
+                {"op": "exec_ctx", "block": "p%d" % k, "client": 1},
                 {"op": "eval", "map": "mv%d" % k, "salts": list(range(SALTS)), "client": 0},
                 {"op": "block", "id": "w%d" % k, "isa": name, "ins": [bv], "addr": 0x1000, "client": 0},
                 {"op": "map", "id": "mw%d" % k, "block": "w%d" % k, "client": 0},
